@@ -186,7 +186,7 @@ const chunk = 16
 
 // fullAlphabet says whether base b gets the full 256-value alphabets.
 func fullAlphabet(b *base) bool {
-	return vk.Thorough() || (b.tname == sigTimes[0].name && b.named == b.key && (b.doc.name == "minimal" || b.doc.name == "sha1signer"))
+	return vk.Thorough()
 }
 
 // mutate1: every single-byte edit of every base document. Edits that produce
@@ -239,11 +239,15 @@ func (r *runner) mutate1() {
 			}
 		}
 	}
-	alpha := "substitution by the 8 single-bit flips + the 6 structural symbols \" , } { : space; insertion of the 8 bit flips of the following byte, the 6 structural symbols, a duplicate of the byte, \\ = and newline; for the two smallest document shapes signed at the first signature time by the key they name: substitution by all 255 other byte values and insertion of all 256 byte values"
+	alpha := "substitution by the 8 single-bit flips + the 6 structural symbols \" , } { : space; insertion of the 8 bit flips of the following byte, the 6 structural symbols, a duplicate of the byte, \\ = and newline"
 	if vk.Thorough() {
 		alpha = "substitution by all 255 other byte values; insertion of all 256 byte values"
 	}
-	sc.Bound = fmt.Sprintf("%d signed documents (%d document shapes x %d signature times x 2 keys, plus the same re-signed by the other key), %d byte positions in total; at every position: deletion, %s; every proper prefix and suffix", len(r.allBases()), nMutDocs(), nTimes(), positions, alpha)
+	shapes := map[string]bool{}
+	for _, b := range r.bases {
+		shapes[b.doc.name] = true
+	}
+	sc.Bound = fmt.Sprintf("%d signed documents (%d document shapes x %d signature times x 2 keys = %d, plus %d re-signed by the other key while naming the first), %d byte positions in total; at every position: deletion, %s; every proper prefix and suffix", len(r.allBases()), len(shapes), nTimes(), len(r.bases), len(r.resigned), positions, alpha)
 }
 
 type edit struct {
@@ -695,12 +699,16 @@ func TestCheck(t *testing.T) {
 	}
 	r.work = 1
 	// cheap, structurally targeted scenarios first; the big spaces after
-	r.signerswap()
-	r.resign()
-	r.inject()
-	r.mutate1()
-	r.mutate2()
-	r.signGrammar()
+	for _, ph := range []struct {
+		name string
+		f    func()
+	}{{"signerswap", r.signerswap}, {"resign", r.resign}, {"inject", r.inject}, {"mutate1", r.mutate1}, {"mutate2", r.mutate2}, {"sign", r.signGrammar}} {
+		t0 := time.Now()
+		ph.f()
+		if os.Getenv("VERIF_VERBOSE") != "" {
+			fmt.Printf("phase %-10s %.2fs\n", ph.name, time.Since(t0).Seconds())
+		}
+	}
 	for scen, m := range r.outcomes {
 		sc := res.Scenario(scen)
 		keys := make([]string, 0, len(m))
